@@ -1045,7 +1045,9 @@ func prewriteMutation(db *leveldb.DB, batch *leveldb.Batch,
 			// The minCommitTS has been pushed forward.
 			minCommitTS = dec.lock.minCommitTS
 		}
-		_, err = checkConflictValue(iter, mutation, startTS, startTS, false, assertionLevel, false, false)
+		// The pessimistic lock has fenced off other writers since it was acquired, so, like TiKV, do not
+		// re-check write conflicts (only the assertion and the own-rollback checks remain).
+		_, err = checkConflictValue(iter, mutation, math.MaxUint64, startTS, false, assertionLevel, false, false)
 		if err != nil {
 			return err
 		}
